@@ -61,4 +61,8 @@ each list element -/
 theorem src_renamer_independent_of_storage_order :
     Gen.renamerOrderedDims = "[*sample_dims, *[d for d in X.dims if d not in sample_dims]]" := by decide
 
+/-- source obligation: list items are joined along the feature dimension with xarray's default alignment BY LABEL
+(no `join="override"`, which would pair samples by position) -/
+theorem src_concat_aligns_by_label : Gen.concatenatorConcatKwargs = [("dim", "self.feature_name")] := by decide
+
 end C07
